@@ -100,7 +100,7 @@ Fixpoint djust_expr (c : cfg) (e : expr) {struct e} : bool :=
                     end)
   | ECall _ args k =>
     dj_list args && deg_claim_is k (if all_constant args then Some (DConst, DConst) else None)
-  | EPhi args k => deg_claim_is k (iter_opt (map (var_range c) args))
+  | EPhi args k => match kdeg k with None => true | Some _ => false end    (* a phi below the top of a statement: no claim *)
   | EArray vs k => dj_list vs && deg_claim_is k (iter_opt (map expr_deg vs))
   | EAccess v acc k => dj_acc acc && deg_claim_is k (opt_index_adjust acc (var_range c v))
   | EUpdate v acc rhe k =>
@@ -108,15 +108,22 @@ Fixpoint djust_expr (c : cfg) (e : expr) {struct e} : bool :=
     deg_claim_is k (opt_index_adjust acc (update_base_range c v (expr_deg rhe)))
   end.
 
-Definition djust_stmt (c : cfg) (s : stmt) : bool :=
+(* a phi statement is judged with what is known about the condition that decides
+   along which edge its block is entered (Propagate.block_ctl on the graph itself) *)
+Definition djust_stmt (c : cfg) (m : mctl) (s : stmt) : bool :=
   match s with
   | SDecl _ _ _ dims => forallb (djust_expr c) dims
   | SIf _ cd _ _ => djust_expr c cd
   | SRet _ e => djust_expr c e
+  | SSubst _ _ _ (EPhi args k) _ _ => deg_claim_is k (phi_adjust m (iter_opt (map (var_range c) args)))
   | SSubst _ _ _ rhe _ _ => djust_expr c rhe
   | SCeq _ l r => djust_expr c l && djust_expr c r
   | SLog _ args => forallb (fun a => match a with LStr => true | LExpr e => djust_expr c e end) args
   | SAssert _ e => djust_expr c e
   end.
 
-Definition djust_cfg (c : cfg) : bool := forallb (djust_stmt c) (all_stmts (c_blocks c)).
+Definition djust_block (c : cfg) (idom : list (option N)) (b : block) : bool :=
+  forallb (djust_stmt c (block_ctl (c_blocks c) idom b)) (b_stmts b).
+
+Definition djust_cfg (c : cfg) (idom : list (option N)) : bool :=
+  forallb (djust_block c idom) (c_blocks c).
